@@ -58,6 +58,7 @@ def minimal_before(T, seen, s, strict):
 def run(rep, tier, seed):
     le = imp()
     rng = random.Random(seed)
+    rep.trail = []
     rep.broken = []
     rep.compared = 0
     maxlen = 6 if tier == 'thorough' else 5
@@ -137,18 +138,20 @@ def run(rep, tier, seed):
         if ''.join(c.lower() for c in s) != s.lower():
             continue
         strict = rng.random() < 0.5
+        rep.trail.append({'table': T, 'text': s, 'strict': strict})
         err, d, m = check_text(Lt, s, strict)
         rep.case(('gen', s, strict, repr(T)), nontrivial=True, sample={'table': T, 'text': s, 'outcome': d[:2]})
         rep.count('generated')
         if err:
-            rep.violations.append({'key': 'differs', 'kind': 'text', 'table': T, 'text': s, 'strict': strict,
+            rep.violations.append({'key': 'differs', 'kind': 'text', 'table': T, 'text': s, 'strict': strict, '_at': len(rep.trail) - 1,
                                    'what': 'simple and default tokenizers disagree: ' + err})
 
 
 def replay(payload):
     T = [tuple(x) for x in payload['table']]
     L = make_licensing([(k, a, e) for k, a, e in T])
-    for b, st in payload.get('before', []):
-        check_text(L, b, st)
+    for b in payload.get('before', []):
+        if not isinstance(b, dict):     # earlier texts on this very Licensing; dict entries are whole earlier cases, replayed by main
+            check_text(L, b[0], b[1])
     err, d, m = check_text(L, payload['text'], payload.get('strict', False))
     return err is None, err or 'same outcome %r' % (d,)
